@@ -133,10 +133,17 @@ def main():
     cfg = C.config_name()
     drv = C.Driver()
     model_idx = {}
+    trace_idx = {}
+    trace_budget = 250 if not thorough else 1500
     budget = 500 if not thorough else 3000
     for i, (p, route) in enumerate(work):
         if max(len(p["n1"][0]), len(p["n2"][0])) <= 5 and len(model_idx) < budget and Z.net_is_f64(p["n1"]) and Z.net_is_f64(p["n2"]):
             model_idx[i] = PL.ask_all_intersections(drv, cfg, p["n1"], p["n2"])
+            # step-level tie (pure configuration: intersect_one_round of the running implementation is wrapped): the
+            # candidate list entering every round and the accumulator after it, against Model.allIntersectionsTrace
+            # (C03.trace_result: its result component IS allIntersections)
+            if cfg == "pure" and len(trace_idx) < trace_budget:
+                trace_idx[i] = PL.ask_trace(drv, cfg, p["n1"], p["n2"])
     model_replies = drv.run() if drv.lines else []
 
     for wi, (p, route) in enumerate(work):
@@ -168,6 +175,13 @@ def main():
             same, whynot = PL.same_result(impl, mrep, tol=Fr(1, 2 ** 26))
             res.count(("model", key), nontrivial=False, model_tie="agree" if same else "differ")
             pending_mismatch = None if same else (str(impl)[:300], str(model_replies[model_idx[wi]])[:300], whynot)
+            if wi in trace_idx and route == "all_intersections":
+                pylog, pyres = PL.python_trace(arr1, arr2)
+                diff = PL.compare_trace(pylog, model_replies[trace_idx[wi]])
+                res.count(("trace", key), nontrivial=False, trace_tie="agree" if diff is None else "differ",
+                          trace_rounds=len(pylog) if len(pylog) < 12 else "12+")
+                if diff is not None and pending_mismatch is None:
+                    pending_mismatch = ("rounds=%d outcome=%s" % (len(pylog), str(pyres)[:120]), "see note", "trace: " + diff[1])
         else:
             pending_mismatch = None
         if st == "exc":
